@@ -1156,6 +1156,10 @@ def run_case(case, R):
     for o, n in run.observations.items():
         R.count('observed/' + o, n)
     R.count('exit/' + run.exit)
+    if run.exit.startswith('exception') and run.ended == '421' and run.steps:
+        # not a C07 violation (one error reply, no callback, session ends) but worth seeing: a client line made the
+        # server take its 'unhandled error' path
+        R.count('observed/421-unhandled-error-path:%s:%s' % (run.steps[-1]['unit'].split('/')[0], kind))
     cfg = (ext, kind)
     for i, st in enumerate(run.states):
         R.observe('abstract-state', (cfg, st))
